@@ -44,4 +44,34 @@ theorem case_copy_unbounded : bounded .caseDerefCopy = false ∧ handleLt .caseD
 example : loadTrace .mem ⟨true, true, true, 0, 2⟩ = [.acquire, .use, .use, .use, .use, .release] := by
   simp [loadTrace, List.replicate]
 
+
+/-! ### Partially built arrays are released on every failing path -/
+
+/-- Whatever the items do, a construction that does not succeed leaves nothing alive, whether the
+    failing item returned an error or panicked, and wherever it sits in the array. -/
+theorem partial_array_released : ∀ (items : List ItemOutcome) (acc : Nat),
+    (buildArray items acc).2 ≠ .ok → (buildArray items acc).1 = 0
+  | [], acc, h => by simp [buildArray] at h
+  | .built hp :: rest, acc, h => by
+      simp only [buildArray] at h ⊢
+      exact partial_array_released rest (acc + hp) h
+  | .failed :: _, _, _ => by simp [buildArray]
+  | .panicked :: _, _, _ => by simp [buildArray]
+
+/-- A successful construction owns exactly what its items own. -/
+theorem array_ok_owns_items : ∀ (items : List ItemOutcome) (acc : Nat),
+    (buildArray items acc).2 = .ok → (buildArray items acc).1 = acc + (items.map fun | .built h => h | _ => 0).sum
+  | [], acc, _ => by simp [buildArray]
+  | .built hp :: rest, acc, h => by
+      simp only [buildArray] at h ⊢
+      rw [array_ok_owns_items rest (acc + hp) h]
+      simp [Nat.add_assoc]
+  | .failed :: _, _, h => by simp [buildArray] at h
+  | .panicked :: _, _, h => by simp [buildArray] at h
+
+/-- The defect that was repaired, as a theorem about the unguarded construction: a `[String; 2]` whose
+    second item fails keeps the first alive. -/
+theorem unguarded_array_leaks : buildArrayNoGuard [.built 15, .failed] 0 = (15, .err) ∧
+    buildArrayNoGuard [.built 40, .built 40, .panicked] 0 = (80, .unwound) := by decide
+
 end Eps.C09
